@@ -100,6 +100,19 @@ func main() {
 	switch os.Args[1] {
 	case "check":
 		os.Exit(cmdCheck(os.Args[2:]))
+	case "keys":
+		// debug: list function keys of the given packages containing a substring
+		ld, err := loadRepo("/repo", os.Args[3:])
+		if err != nil {
+			fmt.Println(err)
+			os.Exit(2)
+		}
+		for k := range ld.funcs {
+			if strings.Contains(k, os.Args[2]) {
+				fmt.Println(k)
+			}
+		}
+		os.Exit(0)
 	case "replay":
 		os.Exit(cmdReplay(os.Args[2:]))
 	default:
